@@ -12,6 +12,7 @@ From IBL.C09 Require Model Grammar.
 From IBL.C08 Require Import Model Adc Proofs Canon Scan ScanProofs File FileProofs.
 Import ListNotations.
 Open Scope Z_scope.
+Module M9 := IBL.C09.Model.
 Module G9 := IBL.C09.Grammar.
 
 (* ---- sorting is a true permutation: each site exactly once ---- *)
